@@ -619,7 +619,7 @@ def gen_cache_ops(rng):
     ops = []
     for nme in names:
         if rng.random() < 0.4:
-            ops.append(["seed", nme])            # warm cache
+            ops.append([rng.choice(["seed", "seed", "seed-link"]), nme])            # warm cache
     for _ in range(rng.choice([3, 4, 6])):
         c = rng.random()
         nme = rng.choice(names)
@@ -628,7 +628,7 @@ def gen_cache_ops(rng):
         elif c < 0.75:
             ops.append(["drop", nme])
         elif c < 0.85:
-            ops.append(["seed", nme])
+            ops.append([rng.choice(["seed", "seed-link"]), nme])
         else:
             # small rectangle inside / across the chosen tile: elevation through the real path
             # (interior of the tile, or across its east border: at most two real tiles alive)
@@ -691,6 +691,18 @@ def check_cache(rec, case):
                 os.makedirs(cache_dir, exist_ok=True)
                 write_tile_file(fname(op[1]), op[1])
                 present.add(op[1])
+            elif op[0] == "seed-link":
+                # the tile is in the cache directory as a symbolic link into a shared data store
+                os.makedirs(cache_dir, exist_ok=True)
+                store = os.path.join(tmp, "shared-store")
+                os.makedirs(store, exist_ok=True)
+                real = os.path.join(store, os.path.basename(fname(op[1])))
+                write_tile_file(real, op[1])
+                if os.path.lexists(fname(op[1])):
+                    os.remove(fname(op[1]))
+                os.symlink(real, fname(op[1]))
+                present.add(op[1])
+                rec.count("cache.symlinked_tiles")
             elif op[0] == "drop":
                 if os.path.exists(fname(op[1])):
                     os.remove(fname(op[1]))
